@@ -89,16 +89,23 @@ def run(ctx):
                 'class type of every slot vs the static type tracked by the reference interpreter, and a deep walk of every final '
                 'slot (prim/args of every nested component); plus collection transformers (MAP/ITER/UPDATE/GET_AND_UPDATE/EDIV/'
                 'UNPACK/LEFT/NONE/CONS/PAIR n over composite key and element shapes, empty collections included); distinct by program '
-                'text; non-trivial = >= 3 distinct primitives')
+                'text; non-trivial = >= 3 distinct primitives; plus the real-contract calls of C01 (mainnet scripts shipped with the '
+                'repository tests) judged on the declared type of every slot after every instruction')
     i = 0
     for label, code in transformer_programs(ctx.rng, ctx.pick(1200, 60000) // ctx.nshards):
         ctx.count('transformer_programs')
         K.run_case(ctx, PID, label, code, None, 'types', True)
     c01.workload(ctx, PID, 'types', True)
+    from rv.checks import _real as R
+    R.workload(ctx, PID, 'types')
+    ctx.require('real_contract_agree' if not ctx.violations else 'real_contract_calls', 20)
     ctx.require('agree', 300)
     ctx.require('deep_conformance_walks', 300)
     ctx.require('transformer_programs', 100)
 
 
 def replay(ctx, case):
+    if case.get('label') == 'real-contract':
+        from rv.checks import _real as R
+        return R.replay(ctx, PID, case, 'types')
     K.run_case(ctx, PID, case.get('label', 'replay'), case['code'], K.env_from_json(case.get('env')), 'types', True)
